@@ -16,6 +16,7 @@ import (
 // Ctx is the per-run context handed to a property's rule set.
 type Ctx struct {
 	armReach map[byte]map[*ssa.Function]bool
+	malformedDrop string
 	P        *core.Prog
 	R        *core.Report
 	Tier     string
@@ -762,4 +763,74 @@ func (c *Ctx) throughCarrier(v ssa.Value) (ssa.Value, *ssa.Function) {
 		return v, nil
 	}
 	return found, h
+}
+
+// errorEmitter returns the function of package wire that writes the ErrorResponse frame (Start('E') ... End):
+// ErrorCode itself, or the helper it delegates the frame to.
+func (c *Ctx) errorEmitter() *ssa.Function {
+	for _, fn := range c.P.ScopeFuncs() {
+		if !c.P.InPkg(fn, "wire") {
+			continue
+		}
+		for _, ci := range core.Calls(fn) {
+			if writerMethod(ci) == "Start" {
+				if k, ok := core.ConstInt(ci.Common().Args[1]); ok && k == 'E' {
+					return fn
+				}
+			}
+		}
+	}
+	return nil
+}
+
+// readMessageHandled: in the command loop a message that was read successfully is either handed to the dispatcher
+// (or to the oversized-message recovery), or the loop ends with a non-nil result. A successful return that has
+// consumed a message without handling it drops the message silently: the client waits for a reply that never comes.
+func (c *Ctx) readMessageHandled(rule string) {
+	R := c.R
+	csc := c.P.Method("wire", "Session", "consumeSingleCommand")
+	hc := c.P.Method("wire", "Session", "handleCommand")
+	if csc == nil || hc == nil {
+		// consumeSingleCommand may have been merged into the loop
+		csc = c.P.Method("wire", "Session", "consumeCommands")
+		if csc == nil || hc == nil || len(callsIn(csc, calleeIs(hc))) == 0 {
+			R.Fail(rule, "command-loop:anchor", "-", "the command loop reads a message and dispatches it", "consumeSingleCommand / handleCommand not found")
+			return
+		}
+	}
+	var rcall *ssa.Call
+	for _, ci := range core.Calls(csc) {
+		if call, ok := ci.(*ssa.Call); ok && isReaderMethod(call, "ReadTypedMsg") {
+			rcall = call
+		}
+	}
+	if rcall == nil {
+		return
+	}
+	okRead := nilEdges(errResultOf(rcall), true)
+	n := 0
+	for _, r := range returns(csc) {
+		if !anyDominates(okRead, r.Block()) {
+			continue
+		}
+		cls := c.Err().Classify(errOperand(r), r.Block())
+		if !cls.MayBeNil() {
+			continue
+		}
+		n++
+		handled := false
+		for _, ci := range callsIn(csc, calleeIs(hc)) {
+			if core.InstrDominates(ci, r) {
+				handled = true
+			}
+		}
+		// `return srv.handleCommand(..)` is a return of the dispatcher's own result
+		for _, root := range core.ErrRoots(errOperand(r)) {
+			if call, ok := root.(*ssa.Call); ok && core.StaticCallee(call) == hc {
+				handled = true
+			}
+		}
+		R.Check(handled, rule, "consumeSingleCommand:read-message-is-handled:"+retDescr(r), c.at(r), "a message that was read is dispatched, or the connection ends: it is never dropped silently", "the successful return passes through handleCommand", "after a message was read successfully the loop can return nil without dispatching it (the 'server is closing' path): the message is dropped, a Query / Sync gets no ReadyForQuery, a Terminate is ignored, and the client waits on an open connection")
+	}
+	R.Floor(rule, "successful returns of the command step after a read", n, 1)
 }
